@@ -201,3 +201,15 @@ Theorem C14_history_nonvacuous :
   Forall (op_ok env_ex KI) hist_ex /\
   exists outs, run KI env_ex hist_ex [5] = Some ([-3], outs) /\ undo_pairs outs = [(5, 9); (9, -3)].
 Proof. exact history_nonvacuous. Qed.
+
+(* outside the property's quantifier, recorded because it shows that the "no
+   NaN" side condition of [numeric_set] is necessary: a NaN is stored whatever
+   the declared range is, and re-sending it reports a change every time *)
+Theorem C14_nan_is_stored_unclamped :
+  exists e loc old b,
+    onan (p_min e) /\ onan (p_max e) /\ bounds_ordered fkey (p_min e) (p_max e) /\
+    nonan old /\ f_is_nan b = true /\
+    exists o1 o2, rParamFCb e loc old [Af b] = Some (b, o1) /\
+                  rParamFCb e loc b [Af b] = Some (b, o2) /\
+                  undo_events o2 = [undo_event loc Af b b].
+Proof. exact nan_not_clamped. Qed.
